@@ -1,3 +1,4 @@
 //! Shared scaffolding for the sozu verification harness.
 pub mod util;
 pub mod worker;
+pub mod h2;
